@@ -37,6 +37,9 @@ structure DFlags where
   pathWrapped : Bool
   /-- `serialization.from_task_dir` passes its data loader on to `from_state_dict` (N4, fix aede015). -/
   taskDirForwards : Bool := true
+  /-- `SerializationContext.serialize` names the copy `Path(*var_path)`: after the *parameter* (false: after the
+      data file, `data_path.name` — seeded change C12g). -/
+  nameByParam : Bool := true
   deriving Repr, DecidableEq
 
 /-! ### names -/
@@ -47,8 +50,16 @@ def slash : Nat := 47
 def dec (n : Nat) : List Nat := (Nat.toDigits 10 n).map Char.toNat
 
 /-- `str(Path(*var_path))`: position of the definition, `/`, name of the argument. -/
-def relName (dfl : DFlags) (pos : Nat) (arg : List Nat) : List Nat :=
+def paramName (dfl : DFlags) (pos : Nat) (arg : List Nat) : List Nat :=
   if dfl.perObject then dec pos ++ slash :: arg else arg
+
+/-- `Path.name`: what follows the last `/`. -/
+def baseName (s : List Nat) : List Nat := (s.reverse.takeWhile (· != slash)).reverse
+
+/-- the relative name `SerializationContext.serialize` gives to the copy of the file `src` held by argument `arg` of the
+    definition at position `pos`. -/
+def relName (dfl : DFlags) (pos : Nat) (arg src : List Nat) : List Nat :=
+  if dfl.nameByParam then paramName dfl pos arg else paramName dfl pos (baseName src)
 
 /-- `dir / name`. -/
 def inDir (base rel : List Nat) : List Nat := base ++ slash :: rel
@@ -74,7 +85,7 @@ def dataNames (lib : List Cls) (sg : SGraph) (n : Nat) : List (List Nat) :=
 /-- `value = context.serialize(var_path, value)` for a data argument that holds a path. -/
 def renameArg (dfl : DFlags) (data : List (List Nat)) (pos : Nat) (a : Arg) : Arg :=
   match data.contains a.name, a.value with
-  | true, .path _ => { a with value := .path (relName dfl pos a.name) }
+  | true, .path s => { a with value := .path (relName dfl pos a.name s) }
   | _, _ => a
 
 /-- the graph as `__get_objects__` writes it into a save directory: every data path of an emitted configuration
@@ -92,7 +103,7 @@ def copiesOfArgs (dfl : DFlags) (fs : FS) (data : List (List Nat)) (pos : Nat) :
   | [] => []
   | a :: r =>
     match data.contains a.name, a.value with
-    | true, .path s => (relName dfl pos a.name, (fsGet fs s).getD 0) :: copiesOfArgs dfl fs data pos r
+    | true, .path s => (relName dfl pos a.name s, (fsGet fs s).getD 0) :: copiesOfArgs dfl fs data pos r
     | _, _ => copiesOfArgs dfl fs data pos r
 
 /-- all the copies of a save, in the order they are made. -/
